@@ -55,8 +55,9 @@ VARIABLES conf,    \* [v4, v6, cap4, cap6, sec, trunk, rdma, min, max, maxEni]
           absent,  \* pod names the agent's gc verified absent since its last NodeRuntime write
           seen,    \* what the controller learned from the cloud in the current reconcile: <<e, a>> addresses, <<e, 0>> interfaces
           rg,      \* <<e, a>> removed in the cloud behind the controller's back since they were last assigned
-          fresh,   \* interfaces created since the record was last published - kept across a failed record write (the controller
-                   \* remembers that it has to re-sync) until it lists the interfaces again or restarts
+          fresh,   \* what the controller itself obtained from the cloud since the record was last published: <<e, 0>> interfaces
+                   \* created, <<e, a>> addresses it was handed - kept across a failed record write (the controller remembers
+                   \* that it has to re-sync) until it lists the interfaces again or restarts
           wr,      \* outcome of the record write of the current reconcile: "none" | "ok" | "fail"
           healthy  \* the drain began: no more faults
 
@@ -68,7 +69,7 @@ FamOn(f) == IF f = 4 THEN conf.v4 ELSE conf.v6
 Addrs(e) == cloud[e].v4 \cup cloud[e].v6
 FamSet(e, f) == IF f = 4 THEN cloud[e].v4 ELSE cloud[e].v6
 (* what the controller can know of an interface: the published record plus what this reconcile was told *)
-Known(e, f) == { a \in FamSet(e, f) : <<e, a>> \in seen \/ \E x \in crI : x.e = e /\ x.a = a }
+Known(e, f) == { a \in FamSet(e, f) : <<e, a>> \in seen \/ <<e, a>> \in fresh \/ \E x \in crI : x.e = e /\ x.a = a }
 Attached == { e \in Enis : cloud[e].on /\ cloud[e].att }
 
 Final(u) == LET r == rt[u] IN
@@ -231,9 +232,9 @@ CrUpdate(NE, NI) ==
     \* ---- C03: nothing is taken from a pod that still exists or whose teardown is not reported
     /\ G("C03", \A x \in Bound(crI) : (~Kept(x, NI) \/ Marked(x, NE, NI)) => Reclaimable(x))
     \* ---- C08: an interface created since the last published record and still existing is recorded (in use or for deletion)
-    /\ G("C08", wr # "fail" => \A e \in fresh : cloud[e].on => HasEni(NE, e))
+    /\ G("C08", wr # "fail" => \A x \in fresh : x[2] = 0 /\ cloud[x[1]].on => HasEni(NE, x[1]))
     /\ crE' = NE /\ crI' = NI
-    /\ fresh' = IF wr = "fail" THEN { e \in fresh : cloud[e].on } ELSE {}
+    /\ fresh' = IF wr = "fail" THEN { x \in fresh : cloud[x[1]].on /\ (x[2] = 0 \/ x[2] \in Addrs(x[1])) } ELSE {}
     /\ rg' = { r \in rg : \/ r[2] \notin Addrs(r[1])                                                  \* the exemption lasts while the address is gone,
                            \/ (\E y \in Bound(NI) : y.e = r[1] /\ y.a = r[2])                         \* while the record still binds it,
                            \/ (\E u \in Uids : up[u] /\ given[u].e = r[1] /\ r[2] \in {given[u].a4, given[u].a6}) }   \* or a sandbox still holds it
@@ -242,7 +243,7 @@ CrUpdate(NE, NI) ==
 (* ------------------------------------------------------------------ controller: OpenAPI calls *)
 
 Recorded == { e \in Enis : HasEni(crE, e) }
-Slots == { e \in Attached : e \in Recorded \/ <<e, 0>> \in seen } \cup { e \in fresh : cloud[e].on }      \* interfaces the controller can know to occupy a slot
+Slots == { e \in Attached : e \in Recorded \/ <<e, 0>> \in seen } \cup { e \in Enis : <<e, 0>> \in fresh /\ cloud[e].on }      \* interfaces the controller can know to occupy a slot
 
 CreateBegin(n4, n6, type, rdma) ==
     /\ G("C08", n4 <= (IF conf.v4 THEN conf.cap4 ELSE 1) /\ n6 <= conf.cap6)                         \* addresses per interface
@@ -257,7 +258,7 @@ CreateEnd(e, type, rdma, primary, v4s, v6s) ==
     /\ IF e = 0 THEN UNCHANGED <<cloud, fresh>>
        ELSE /\ ~cloud[e].on                                                                          \* (I)
             /\ cloud' = [cloud EXCEPT ![e] = [on |-> TRUE, att |-> FALSE, type |-> type, rdma |-> rdma, primary |-> primary, v4 |-> v4s, v6 |-> v6s]]
-            /\ fresh' = fresh \cup {e}
+            /\ fresh' = fresh \cup {<<e, 0>>} \cup { <<e, a>> : a \in v4s \cup v6s }
     /\ seen' = IF e = 0 THEN seen ELSE seen \cup { <<e, a>> : a \in v4s \cup v6s }
     /\ UNCHANGED <<conf, crE, crI, pods, rt, up, given, delp, told, absent, rg, wr, healthy>>
 
@@ -272,7 +273,8 @@ AssignBegin(e, f, n) ==
 AssignEnd(e, f, as, toldCaller) ==
     /\ cloud' = [cloud EXCEPT ![e] = IF f = 4 THEN [@ EXCEPT !.v4 = @ \cup as] ELSE [@ EXCEPT !.v6 = @ \cup as]]
     /\ seen' = IF toldCaller THEN seen \cup { <<e, a>> : a \in as } ELSE seen                          \* a time-out after the effect tells the caller nothing
-    /\ UNCHANGED <<conf, crE, crI, pods, rt, up, given, delp, told, absent, rg, fresh, wr, healthy>>
+    /\ fresh' = IF toldCaller THEN fresh \cup { <<e, a>> : a \in as } ELSE fresh
+    /\ UNCHANGED <<conf, crE, crI, pods, rt, up, given, delp, told, absent, rg, wr, healthy>>
 
 UnassignBegin(e, f, as) ==
     /\ G("C03", \A x \in Bound(crI) : x.e = e /\ x.a \in as => Reclaimable(x))                       \* never an address of a pod that may still use it
@@ -281,7 +283,8 @@ UnassignBegin(e, f, as) ==
 
 UnassignEnd(e, f, as, effect) ==
     /\ cloud' = IF effect THEN [cloud EXCEPT ![e] = [@ EXCEPT !.v4 = @ \ as, !.v6 = @ \ as]] ELSE cloud
-    /\ UNCHANGED <<conf, crE, crI, pods, rt, up, given, delp, told, absent, seen, rg, fresh, wr, healthy>>
+    /\ fresh' = IF effect THEN fresh \ { <<e, a>> : a \in as } ELSE fresh
+    /\ UNCHANGED <<conf, crE, crI, pods, rt, up, given, delp, told, absent, seen, rg, wr, healthy>>
 
 Detach(e, effect) ==
     /\ G("C03", \A x \in Bound(crI) : x.e = e => Reclaimable(x))
@@ -294,7 +297,7 @@ DeleteBegin(e) ==
 
 DeleteEnd(e, effect) ==
     /\ cloud' = IF effect THEN [cloud EXCEPT ![e] = NoEni] ELSE cloud
-    /\ fresh' = IF effect THEN fresh \ {e} ELSE fresh
+    /\ fresh' = IF effect THEN { x \in fresh : x[1] # e } ELSE fresh
     /\ UNCHANGED <<conf, crE, crI, pods, rt, up, given, delp, told, absent, seen, rg, wr, healthy>>
 
 (* The controller listed the instance's interfaces: for the rest of this reconcile it knows them and every address on them. *)
